@@ -18,7 +18,12 @@ DChunk(n) == /\ ipos < Len(data)
                     r == DeltaChunk(enc, s, SubSeq(data, ipos + 1, ipos + k))
                 IN s' = r[1] /\ out' = out \o r[2] /\ ipos' = ipos + k
              /\ UNCHANGED <<dist, enc, data>>
-DNext == \E n \in Chunks : DChunk(n)
+\* the same coder object is initialised again, possibly with another distance, for another job
+DReinit == /\ ipos > 0
+           /\ \E d2 \in Dists : dist' = d2 /\ s' = DeltaReinit(s, d2)
+           /\ data' \in {Raw("x86", n, n + 3, 0) : n \in Lens}
+           /\ ipos' = 0 /\ out' = <<>> /\ UNCHANGED enc
+DNext == (\E n \in Chunks : DChunk(n)) \/ DReinit
 DSpec == DInit /\ [][DNext]_dvars
 
 WholeDef == IF enc THEN DeltaEncDef(data, dist) ELSE DeltaDecDef(data, dist)
